@@ -478,12 +478,15 @@ theorem c09_head_counterexample :
       str "HTTP/1.1 200 OK\r\nDate: D\r\nTransfer-Encoding: chunked\r\n\r\n" ++ str "0\r\n\r\n" := by
   decide
 
-/-- **finding resp-readfrom-nil-head.** ReadFrom after a Write on a response with Content-Length: the
-head buffer has moved into the body buffer and `*res.buffer` is a nil dereference. -/
-theorem c09_readfrom_after_write_counterexample :
+/-- (was finding resp-readfrom-nil-head, repaired) ReadFrom after a Write on a response with Content-Length: the
+head has moved into the body buffer; it and the first ten bytes go out before the reader's bytes. -/
+theorem c09_readfrom_after_write_example :
     (run cfg11 (start [(kDate, [str "D"]), (kCL, [str "20"])] 0 [])
-        [.write (str "0123456789"), .readFrom .plain (str "0123456789")]).2 =
-      [some (.ok 10), some .panic] := by
+        [.write (str "0123456789"), .readFrom .plain (str "abcdefghij")]).2 =
+      [some (.ok 10), some (.ok 10)] ∧
+    (finish cfg11 (run cfg11 (start [(kDate, [str "D"]), (kCL, [str "20"])] 0 [])
+        [.write (str "0123456789"), .readFrom .plain (str "abcdefghij")]).1).1.wire.flatten =
+      str "HTTP/1.1 200 OK\r\nContent-Type: text/plain; charset=utf-8\r\nDate: D\r\nContent-Length: 20\r\n\r\n0123456789abcdefghij" := by
   decide
 
 /-- **outside `saneStatus` (handler error, not a finding).** nbhttp has no informational responses: a handler
@@ -663,6 +666,41 @@ theorem c09_readfrom_serve_content (g : Cfg) (hg : g.failAt = 0) (pre : List Op)
   obtain ⟨r', w⟩ := p
   dsimp only at a b c ⊢
   exact ⟨by rw [a], b, c⟩
+
+/-- **C09, ReadFrom anywhere in an identity-framed body phase** (repaired code; was finding
+`resp-readfrom-nil-head`). After ANY body-phase program (Writes of any size, Flushes, trailer updates) on an
+identity-framed response and a connection that accepts the writes, `ReadFrom` returns the number of bytes the reader
+yields, and after flushResponse the wire is the head followed by the accepted writes followed by EXACTLY the reader's
+bytes — whether the head buffer is still pending, has been sent, or has moved into the body buffer. -/
+theorem c09_readfrom_appends (g : Cfg) (hg : g.failAt = 0) (hdr : Header) (sc : Nat) (st : Bytes)
+    (ops : List BOp) (hok : ∀ op ∈ ops, op.ok) (hid : (body0 g hdr sc st).chunked = false)
+    (k : RKind) (data : Bytes) :
+    ∃ H : Bytes,
+      (readFrom g (endState g hdr sc st ops) k data).2 = .ok data.length ∧
+      (finish g (readFrom g (endState g hdr sc st ops) k data).1).1.wire.flatten =
+        H ++ (accepted g hdr sc st ops).flatten ++ data ∧
+      (finish g (readFrom g (endState g hdr sc st ops) k data).1).2 = g.reqClose := by
+  have hf : Fresh (body0 g hdr sc st) := fresh_prelude g _ ⟨rfl, rfl, rfl, rfl⟩
+  have hp : Pre (body0 g hdr sc st) := pre_prelude g _
+  have hw := start_winv _ hf hp
+  obtain ⟨hd', i1, _, i3, _, _⟩ :=
+    runB_spec g hg (verdict (body0 g hdr sc st)) ops hok (fun _ => True) (fun _ _ _ _ => trivial) _ _ _
+      (body0 g hdr sc st) none [] hw ⟨rfl, rfl, rfl, trivial⟩ (by intro H hH; cases hH)
+  have hc : (runB g (body0 g hdr sc st) ops).1.chunked = false := by rw [i3]; exact hid
+  have hbase := (i1.idn hc).1.toBase
+  obtain ⟨r', e, f1, f2, f3, f4, f5, f6, f7, _⟩ := readFrom_appends g hg _ hd' _ hbase k data
+  have hpre : Pre r' := by
+    refine ⟨by rw [f6]; exact i1.pre.1, ?_⟩
+    rw [f5, writeHeader200_pre _ i1.pre.2]; exact i1.pre.2
+  obtain ⟨g1, g2⟩ := finish_sent_pre g hg r' hpre f2 f3 f4 (by rw [f7]; exact hc)
+  refine ⟨(hdAfter g { writeHeader200 (runB g (body0 g hdr sc st) ops).1 with hasBody := true } hd').getD [], ?_, ?_, ?_⟩
+  · show (readFrom g (runB g (body0 g hdr sc st) ops).1 k data).2 = _
+    rw [e]
+  · show (finish g (readFrom g (runB g (body0 g hdr sc st) ops).1 k data).1).1.wire.flatten = _
+    rw [e, g1, f1, hid, framed_identity]
+    simp
+  · show (finish g (readFrom g (runB g (body0 g hdr sc st) ops).1 k data).1).2 = _
+    rw [e]; exact g2
 
 /-! ### non-vacuity -/
 
